@@ -1,7 +1,7 @@
 (* C02 - Injector result equals sequential evaluation of the declared graph. *)
 From Coq Require Import List Arith Bool.
 Import ListNotations.
-Require Import Sem2 Safe Live Denote GenU GenSound.
+Require Import Sem2 Safe Live Denote GenU GenSound Resolve.
 
 (* In every run of a well-synchronised program a provider returns at most once, with one argument vector. *)
 Theorem C02_once : forall p ls s n vs ws, wf p -> Sem2.run p (Sem2.init p) ls = Some s ->
@@ -43,6 +43,29 @@ Proof.
   intros ls s R. apply (run_value_is_sequential _ ls s (wfl_wf _ _ W) R).
 Qed.
 Print Assumptions C02_all_declarations.
+
+(* What "the declared graph" is, for ALL accepted declarations: every parameter of every needed provider is selected by its
+   type - if some declared provider (function, Bind group, Value, Struct field) supplies the type, the parameter is result
+   gi of THE node of that provider; if none does it is THE injector argument of that type.  (pm is the provider map the two
+   registration passes build from the declaration.) *)
+Theorem C02_parameters_selected_by_type : forall d g, unew_graph d = Gen.OK g -> exists pm, dpm d = Some (pm, uprovs g) /\
+  forall c p, uprov g c = Some p ->
+    unreq g c = length (Gen.requires p) /\
+    forall i t, nth_error (Gen.requires p) i = Some t ->
+      match Gen.assoc t pm with
+      | Some (pi, gi) => usidx g c i = gi /\ nth_error (Bfs.nodes (ub g)) (usrc g c i) = Some (Bfs.NProv pi)
+      | None => nth_error (Bfs.nodes (ub g)) (usrc g c i) = Some (Bfs.NArg t)
+      end.
+Proof. exact params_by_type. Qed.
+Print Assumptions C02_parameters_selected_by_type.
+
+(* Each needed provider is ONE node (so Layer A's at-most-once per node is at-most-once per provider), and the node whose
+   result is returned is the provider of the requested type. *)
+Theorem C02_one_node_per_provider : forall d g, unew_graph d = Gen.OK g -> exists pm pi, dpm d = Some (pm, uprovs g) /\
+  Gen.assoc (Gen.d_ret d) pm = Some (pi, uret g) /\ nth_error (Bfs.nodes (ub g)) 0 = Some (Bfs.NProv pi) /\
+  forall n n' pj, n <> 0 -> n' <> 0 -> nth_error (Bfs.nodes (ub g)) n = Some (Bfs.NProv pj) -> nth_error (Bfs.nodes (ub g)) n' = Some (Bfs.NProv pj) -> n = n'.
+Proof. exact prov_nodes. Qed.
+Print Assumptions C02_one_node_per_provider.
 
 (* non-vacuity: the sequential evaluator succeeds on a concrete program and the concurrent run stores that value *)
 Definition ex_prog : prog :=
